@@ -18,17 +18,16 @@ ENCODERS = ['COMPLETE', 'FAST']
 
 
 def scope_text(tier):
-    return ('SEL-q + CON-1q + DV-1' if tier == 'quick' else 'SEL-t + CON-1t + DV-1') + \
+    return ('SEL-q + CC-1q + CON-1q + DV-1q' if tier == 'quick' else 'SEL-t + CC-1t + CON-1t + DV-1t') + \
         ' (see vf/enumerate.py SCOPES, vf/families.py); encoders COMPLETE and FAST; full declared space'
 
 
 def cases(tier, seed):
     for spec in en.scope_specs('SEL-q' if tier == 'quick' else 'SEL-t'):
         yield dict(spec=spec)
-    for spec in families.con1(tier):
-        yield dict(spec=spec)
-    for spec in families.dv1(tier):
-        yield dict(spec=spec)
+    for fam in (families.cc1, families.con1, families.dv1):
+        for spec in fam(tier):
+            yield dict(spec=spec)
 
 
 def check_table(spec, enc, t, A, res, viol):
